@@ -102,3 +102,143 @@ Definition Spec_GB_commercial_with (check_number : bytes -> Z) (c : bytes) : Pro
 Definition Spec_GB_commercial : bytes -> Prop := Spec_GB_commercial_with gb_check_number.
 (* what the implementation computes instead of gb_check_number: 0 when the sum is a multiple of 97 *)
 Definition gb_check_number_impl (c : bytes) : Z := (97 - (gb_weighted c) mod 97) mod 97.
+
+(* ================= AT, DE, CO, BR, ES, IN, AE, MX, GB (all forms) ================= *)
+
+(* AT - UID-Nummer: "U" and 8 digits C1..C8.  The digits in even places (C2, C4, C6) are doubled
+   and replaced by the sum of the digits of the product, S = C1 + q(C2) + C3 + q(C4) + C5 + q(C6) + C7;
+   the check digit is C8 = (96 - S) mod 10 *)
+Definition digit_sum_of_double (d : Z) : Z := d / 5 + (2 * d) mod 10.
+Definition Spec_AT (c : bytes) : Prop :=
+  List.length c = 9%nat /\ nthb 0 c = "U"%byte /\ digits_between c 1 9 /\
+  dig c 8 = (96 - (dig c 1 + digit_sum_of_double (dig c 2) + dig c 3 + digit_sum_of_double (dig c 4) +
+                   dig c 5 + digit_sum_of_double (dig c 6) + dig c 7)) mod 10.
+
+(* DE - USt-IdNr.: 9 digits, the first not 0; ISO 7064 MOD 11,10 (hybrid system).  Starting from
+   the product P = 10, every digit a takes P to P' = 2 * S mod 11, where S is (P + a) mod 10
+   written in 1..10 (10 instead of 0).  After the first eight digits, the ninth is the check digit:
+   (P + a9) mod 10 = 1 *)
+Definition iso7064_11_10_next (p a p' : Z) : Prop :=
+  exists s, 1 <= s <= 10 /\ (s - (p + a)) mod 10 = 0 /\ p' = (2 * s) mod 11.
+Fixpoint iso7064_11_10_chain (p : Z) (ds : list Z) (q : Z) : Prop :=
+  match ds with
+  | [] => q = p
+  | a :: r => exists p', iso7064_11_10_next p a p' /\ iso7064_11_10_chain p' r q
+  end.
+Definition Spec_DE (c : bytes) : Prop :=
+  List.length c = 9%nat /\ digits_between c 0 9 /\ dig c 0 <> 0 /\
+  exists p, iso7064_11_10_chain 10 [dig c 0; dig c 1; dig c 2; dig c 3; dig c 4; dig c 5; dig c 6; dig c 7] p /\
+            (p + dig c 8) mod 10 = 1.
+
+(* CO - NIT with its verification digit (DV) as the last digit: 9 or 10 digits in all.  The digits
+   before the DV are weighted from the right by 3 7 13 17 19 23 29 37 41 ...; with r the sum
+   modulo 11 the DV is r when r is 0 or 1, else 11 - r *)
+Definition co_dv_rule (r dv_ : Z) : Prop := (r < 2 /\ dv_ = r) \/ (2 <= r /\ dv_ = 11 - r).
+Definition Spec_CO (c : bytes) : Prop :=
+  digits_between c 0 (List.length c) /\
+  ((List.length c = 9%nat /\
+    co_dv_rule ((37 * dig c 0 + 29 * dig c 1 + 23 * dig c 2 + 19 * dig c 3 + 17 * dig c 4 + 13 * dig c 5 +
+                 7 * dig c 6 + 3 * dig c 7) mod 11) (dig c 8)) \/
+   (List.length c = 10%nat /\
+    co_dv_rule ((41 * dig c 0 + 37 * dig c 1 + 29 * dig c 2 + 23 * dig c 3 + 19 * dig c 4 + 17 * dig c 5 +
+                 13 * dig c 6 + 7 * dig c 7 + 3 * dig c 8) mod 11) (dig c 9))).
+
+(* BR - CNPJ: 14 digits, the last two are verification digits.  First: weights 5 4 3 2 9 8 7 6 5 4 3 2
+   on the first twelve digits; second: weights 6 5 4 3 2 9 8 7 6 5 4 3 2 on the first thirteen
+   (the first verification digit included); each is 0 when the sum modulo 11 is below 2, else
+   11 minus that remainder *)
+Definition br_dv_rule (r dv_ : Z) : Prop := (r < 2 /\ dv_ = 0) \/ (2 <= r /\ dv_ = 11 - r).
+Definition Spec_BR (c : bytes) : Prop :=
+  List.length c = 14%nat /\ digits_between c 0 14 /\
+  br_dv_rule ((5 * dig c 0 + 4 * dig c 1 + 3 * dig c 2 + 2 * dig c 3 + 9 * dig c 4 + 8 * dig c 5 + 7 * dig c 6 +
+               6 * dig c 7 + 5 * dig c 8 + 4 * dig c 9 + 3 * dig c 10 + 2 * dig c 11) mod 11) (dig c 12) /\
+  br_dv_rule ((6 * dig c 0 + 5 * dig c 1 + 4 * dig c 2 + 3 * dig c 3 + 2 * dig c 4 + 9 * dig c 5 + 8 * dig c 6 +
+               7 * dig c 7 + 6 * dig c 8 + 5 * dig c 9 + 4 * dig c 10 + 3 * dig c 11 + 2 * dig c 12) mod 11) (dig c 13).
+
+(* ES - NIF, 9 characters, one of:
+   DNI: 8 digits and a letter, the letter is the (number mod 23)-th of TRWAGMYFPDXBNJZSQVHLCKE
+        (the number 00000000 is not issued: the regime's documented exception);
+   NIE: X, Y or Z, 7 digits and a letter: the same with X, Y, Z read as the digit 0, 1, 2;
+   CIF (legal entities, first letter one of ABCDEFGHJNPQRSUVW) and the K, L, M numbers: a letter,
+        7 digits and a control character.  With C = the sum of the digits in even places plus, for
+        the digits in odd places (1st, 3rd, 5th, 7th), the digit sum of their double, the control
+        value is D = (10 - C mod 10) mod 10, written either as the digit D or as the D-th letter of
+        JABCDEFGHI.  Which of the two forms is used depends on the first letter: a letter for
+        K L M N P Q R S W, a digit for A B E H, either for the others. *)
+Definition letter_at (table : string) (r : Z) (b : byte) : Prop := nth_error (bs table) (Z.to_nat r) = Some b.
+Definition es_dni_letters : string := "TRWAGMYFPDXBNJZSQVHLCKE".
+Definition es_control_letters : string := "JABCDEFGHI".
+Definition first_is_one_of (s : string) (c : bytes) : Prop := In (nthb 0 c) (bs s).
+Definition Spec_ES_dni (c : bytes) : Prop :=
+  List.length c = 9%nat /\ digits_between c 0 8 /\ number c 0 8 <> 0 /\
+  letter_at es_dni_letters ((number c 0 8) mod 23) (nthb 8 c).
+Definition es_nie_prefix (b : byte) (v : Z) : Prop :=
+  (b = "X"%byte /\ v = 0) \/ (b = "Y"%byte /\ v = 1) \/ (b = "Z"%byte /\ v = 2).
+Definition Spec_ES_nie (c : bytes) : Prop :=
+  List.length c = 9%nat /\ digits_between c 1 8 /\
+  exists v, es_nie_prefix (nthb 0 c) v /\
+            letter_at es_dni_letters ((v * 10 ^ 7 + number c 1 8) mod 23) (nthb 8 c).
+Inductive control_form : Set := AsDigit | AsLetter.
+Definition es_control_value (c : bytes) : Z :=
+  (10 - (luhn2 (dig c 1) + dig c 2 + luhn2 (dig c 3) + dig c 4 + luhn2 (dig c 5) + dig c 6 + luhn2 (dig c 7)) mod 10) mod 10.
+Definition Spec_ES_cif_with (allowed : byte -> control_form -> Prop) (c : bytes) : Prop :=
+  List.length c = 9%nat /\ first_is_one_of "ABCDEFGHJNPQRSUVWKLM" c /\ digits_between c 1 8 /\
+  ((digit_at c 8 /\ dig c 8 = es_control_value c /\ allowed (nthb 0 c) AsDigit) \/
+   (letter_at es_control_letters (es_control_value c) (nthb 8 c) /\ allowed (nthb 0 c) AsLetter)).
+Definition es_published_form (t : byte) (f : control_form) : Prop :=
+  match f with
+  | AsDigit => ~ In t (bs "KLMNPQRSW")
+  | AsLetter => ~ In t (bs "ABEH")
+  end.
+Definition es_any_form (t : byte) (f : control_form) : Prop := True.
+Definition Spec_ES_with (allowed : byte -> control_form -> Prop) (c : bytes) : Prop :=
+  Spec_ES_dni c \/ Spec_ES_nie c \/ Spec_ES_cif_with allowed c.
+Definition Spec_ES : bytes -> Prop := Spec_ES_with es_published_form.
+(* what the implementation accepts: either form of the control character whatever the first letter *)
+Definition Spec_ES_either_form : bytes -> Prop := Spec_ES_with es_any_form.
+
+(* IN - GSTIN, 15 characters: 2 digits (state), the 10-character PAN (5 letters, 4 digits, a
+   letter), an entity character 1-9 or A-Z, "Z", and a check character.  Characters count 0-9 for
+   the digits and 10-35 for A-Z.  Luhn modulo 36: the characters in even places (2nd, 4th, ...)
+   of the first 14 are doubled; every product p contributes p / 36 + p mod 36; the total plus
+   the value of the check character is a multiple of 36 *)
+Definition char36 (b : byte) (v : Z) : Prop :=
+  (is_digit b = true /\ v = bZ b - 48) \/ (is_upper b = true /\ v = bZ b - 55).
+Definition base36_fold (p : Z) : Z := p / 36 + p mod 36.
+Definition upper_at (c : bytes) (i : nat) : Prop := is_upper (nthb i c) = true.
+Definition in_shape (c : bytes) : Prop :=
+  List.length c = 15%nat /\ digits_between c 0 2 /\ (forall i, (2 <= i < 7)%nat -> upper_at c i) /\
+  digits_between c 7 11 /\ upper_at c 11 /\ ((digit_at c 12 /\ dig c 12 <> 0) \/ upper_at c 12) /\
+  nthb 13 c = "Z"%byte /\ (digit_at c 14 \/ upper_at c 14).
+Definition Spec_IN (c : bytes) : Prop :=
+  in_shape c /\
+  exists v : nat -> Z, (forall i, (i < 15)%nat -> char36 (nthb i c) (v i)) /\
+    (base36_fold (v 0%nat) + base36_fold (2 * v 1%nat) + base36_fold (v 2%nat) + base36_fold (2 * v 3%nat) +
+     base36_fold (v 4%nat) + base36_fold (2 * v 5%nat) + base36_fold (v 6%nat) + base36_fold (2 * v 7%nat) +
+     base36_fold (v 8%nat) + base36_fold (2 * v 9%nat) + base36_fold (v 10%nat) + base36_fold (2 * v 11%nat) +
+     base36_fold (v 12%nat) + base36_fold (2 * v 13%nat) + v 14%nat) mod 36 = 0.
+
+(* AE - TRN: 15 digits (no check digit is published) *)
+Definition Spec_AE (c : bytes) : Prop := List.length c = 15%nat /\ digits_between c 0 15.
+
+(* MX - RFC: 4 letters (persons) or 3 letters (companies), where a letter is A-Z, & or the letter
+   N-tilde (two bytes C3 91 in UTF-8), then 6 digits (a date) and 3 letters or digits (homoclave).
+   No check on the date or on the check character is made. *)
+Inductive rfc_letters : nat -> bytes -> Prop :=
+| rfc_nil : rfc_letters 0 []
+| rfc_ascii n b r : (is_upper b = true \/ b = "&"%byte) -> rfc_letters n r -> rfc_letters (S n) (b :: r)
+| rfc_ntilde n r : rfc_letters n r -> rfc_letters (S n) (byte_of_Z 195 :: byte_of_Z 145 :: r).
+Definition Spec_MX (c : bytes) : Prop :=
+  exists p r, c = p ++ r /\ (rfc_letters 4 p \/ rfc_letters 3 p) /\
+    List.length r = 9%nat /\ digits_between r 0 6 /\
+    forall i, (6 <= i < 9)%nat -> is_alnum (nthb i r) = true.
+
+(* GB, all forms: the 9- or 12-digit commercial number above, or GD and a number 000-499
+   (government departments), or HA and a number 500-999 (health authorities) *)
+Definition Spec_GB_special (c : bytes) : Prop :=
+  List.length c = 5%nat /\ digits_between c 2 5 /\
+  ((nthb 0 c = "G"%byte /\ nthb 1 c = "D"%byte /\ number c 2 5 <= 499) \/
+   (nthb 0 c = "H"%byte /\ nthb 1 c = "A"%byte /\ 500 <= number c 2 5)).
+Definition Spec_GB_with (check_number : bytes -> Z) (c : bytes) : Prop :=
+  Spec_GB_commercial_with check_number c \/ Spec_GB_special c.
+Definition Spec_GB : bytes -> Prop := Spec_GB_with gb_check_number.
